@@ -1,4 +1,5 @@
 (* C11 model: umbrella file.  Prim.v: Go operations that can panic; Msg.v:
    messages, transports, ZMQ ingest, registrar, HTTP handlers; Flight.v:
-   first-flight classification; Dns.v: DNS responder. *)
-From CJ Require Export C11.Prim C11.Msg C11.Flight C11.Dns.
+   first-flight classification; Dns.v: DNS responder; Down.v: the ingest worker's
+   body downstream of parseRegMessage, DTLS Connect's parameter use, work bounds. *)
+From CJ Require Export C11.Prim C11.Msg C11.Flight C11.Dns C11.Down.
